@@ -1,5 +1,6 @@
 //! vcheck — model-checking harness for bytebeamio/rumqtt (see /verif/DESIGN.md).
 mod e1;
+mod e2;
 mod e4_topicgrid;
 mod e5_commitlog;
 mod vcore;
@@ -33,6 +34,11 @@ fn main() {
         };
         match args[1].as_str() {
             "C01" => e1::run::run("C01", tier),
+            "C02" => e2::run::run("C02", tier),
+            "C07" => e2::run::run("C07", tier),
+            "C10" => e2::run::run("C10", tier),
+            "C11" => e2::run::run("C11", tier),
+            "C18" => e2::run::run("C18", tier),
             "C03" => e1::run::run("C03", tier),
             "C06" => e1::run::run("C06", tier),
             "C08" => e1::run::run("C08", tier),
@@ -68,6 +74,7 @@ fn replay(path: &str) -> i32 {
     let r = &doc["replay"];
     match r["engine"].as_str().unwrap_or("") {
         "e1_router" => e1::run::replay(r),
+        "e2_client" => e2::run::replay(r),
         "e4_topicgrid" => e4_topicgrid::replay(r),
         "e5_commitlog" => e5_commitlog::replay(r),
         other => vcore::machinery_error(&format!("unknown engine {other}")),
